@@ -8,6 +8,7 @@ Three handlers (attester, proposer, sync committee) = three values of the spec c
 3. the driver's own seeded random schedules on the real handlers are validated by TLC against SchedulerTrace.
 """
 import concurrent.futures
+import hashlib
 import json
 import os
 import random
@@ -48,10 +49,11 @@ OWN = {  # parameters of the driver's own executions; must match spec/SchedTrace
 
 def _tier(tier):
     if tier == "quick":
-        return dict(mc=["Sched_%s_quick.cfg", "Sched_%s_quick2.cfg"], stop_after=150, leaves=250, extra_edges=150,
-                    sim=(40, 90), own_runs=40, par=3, workers=2)
-    return dict(mc=["Sched_%s_thorough.cfg", "Sched_%s_thorough2.cfg", "Sched_%s_quick2.cfg"], stop_after=1500,
-                leaves=4000, extra_edges=4000, sim=(1200, 90), own_runs=1500, par=3, workers=4)
+        return dict(mc=["Sched_%s_quick.cfg", "Sched_%s_quick2.cfg"], stop_after=150, leaves=200, extra_edges=100,
+                    sim=(40, 90), own_runs=40, par=4, workers=2, java="-Xmx2g -XX:ParallelGCThreads=2")
+    return dict(mc=["Sched_%s_thorough.cfg", "Sched_%s_thorough2.cfg", "Sched_%s_thorough3.cfg"], stop_after=1500,
+                leaves=4000, extra_edges=4000, sim=(1200, 90), own_runs=1500, par=3, workers=4,
+                java="-Xmx8g -XX:ParallelGCThreads=4")
 
 
 def _killed(r):
@@ -70,90 +72,168 @@ def _tlc(module, cfg, **kw):
     return r
 
 
-def _pmap(fn, items, par):
-    with concurrent.futures.ThreadPoolExecutor(max_workers=par) as ex:
-        return list(ex.map(fn, items))
+# Attack counterexamples and the dumped cover graphs are pure functions of (Scheduler.tla, MCScheduler.tla, cfg):
+# they are behaviour *generators*, cached under .work/C16/cache by content hash. The exhaustive runs of the faithful
+# spec, the simulations, the replays and the trace validations are redone on every run.
+def _key(cfg):
+    h = hashlib.sha256()
+    for f in ("Scheduler.tla", "MCScheduler.tla", cfg):
+        h.update(open(os.path.join(vlib.SPEC, f), "rb").read())
+    return os.path.join(vlib.WORK, PROP, "cache", cfg.replace(".cfg", "") + "-" + h.hexdigest()[:16] + ".json")
+
+
+def _cache_get(cfg):
+    p = _key(cfg)
+    if os.path.exists(p):
+        try:
+            return json.load(open(p))
+        except ValueError:
+            return None
+    return None
+
+
+def _cache_put(cfg, obj):
+    p = _key(cfg)
+    os.makedirs(os.path.dirname(p), exist_ok=True)
+    tmp = p + ".tmp%d" % os.getpid()
+    with open(tmp, "w") as f:
+        json.dump(obj, f)
+    os.replace(tmp, p)
+
+
+def _attack(cfg, desc):
+    """-> (behaviour or None, generated states of this run)"""
+    c = _cache_get(cfg)
+    if c is not None:
+        return c["behaviour"], 0
+    ra = _tlc("MCScheduler", cfg, workers=1, timeout=900)
+    if ra.error:
+        raise vlib.MachineryError("attack config %s: %s" % (cfg, ra.error))
+    if _killed(ra):
+        raise vlib.MachineryError("attack config %s: TLC was killed three times" % cfg)
+    beh = None
+    if ra.violation:
+        beh = vlib.trace_behaviour(ra.trace, "attack-" + cfg.replace("Sched_attack_", "").replace(".cfg", ""),
+                                   "attack:%s (spec invariant %s)" % (desc, ra.violation), state_vars=STATE_VARS)
+    _cache_put(cfg, {"behaviour": beh})
+    return beh, ra.generated
+
+
+def _sanity():
+    cfg = "Sched_sanity.cfg"
+    c = _cache_get(cfg)
+    if c is None:
+        rs = _tlc("MCScheduler", cfg, workers=1, timeout=300)
+        c = {"violation": rs.violation, "detail": (rs.error or rs.out[-500:]) if rs.violation != "NeverDispatch" else ""}
+        if not _killed(rs):
+            _cache_put(cfg, c)
+    if c["violation"] != "NeverDispatch":
+        raise vlib.MachineryError("sanity: the spec never dispatches a duty (checks would be vacuous): %s" % c["detail"])
+    return True
+
+
+def _cover(role):
+    """-> (nodes, edges, inits, generated states of this run); node states reduced to act + STATE_VARS"""
+    cfg = "Sched_%s_cover.cfg" % role
+    c = _cache_get(cfg)
+    if c is not None:
+        return c["nodes"], [tuple(e) for e in c["edges"]], c["inits"], 0
+    for attempt in range(2):
+        rg, nodes, edges, inits = vlib.tlc_dump_graph("MCScheduler", cfg, name="%s-cover-%s%d" % (PROP, role, attempt),
+                                                      timeout=1500, workers=2)
+        if not _killed(rg) and nodes:
+            break
+    if not vlib.expect_tlc_ok(rg, cfg):
+        raise vlib.MachineryError("cover config of %s violates %s" % (role, rg.violation))
+    if not rg.finished or not nodes:
+        raise vlib.MachineryError("cover config of %s: state graph not dumped completely" % role)
+    small = {n: {k: vlib.tlaval.plain(st[k]) for k in ["act"] + STATE_VARS if k in st} for n, st in nodes.items()}
+    _cache_put(cfg, {"nodes": small, "edges": [list(e) for e in edges], "inits": inits})
+    return small, edges, inits, rg.generated
+
+
+def _sim(role, num, depth, seed):
+    for attempt in range(2):
+        rsim, sb = vlib.tlc_simulate("MCScheduler", "Sched_%s_sim.cfg" % role, num, depth, seed,
+                                     name="%s-sim-%s%d" % (PROP, role, attempt), keep_vars=["act"] + STATE_VARS, timeout=1500)
+        if sb or rsim.violation or rsim.error:
+            break
+    if rsim.violation or rsim.error:
+        raise vlib.MachineryError("simulation config of %s: %s %s" % (role, rsim.violation, rsim.error))
+    return rsim, sb
+
+
+def _own(drv, wd, role, seed, runs):
+    tr = os.path.join(wd, "trace_%s.ndjson" % role)
+    outr = os.path.join(wd, "own_%s.json" % role)
+    p = OWN[role]
+    vlib.run_driver(drv, ["-mode", "own", "-role", role, "-trace", tr, "-out", outr, "-seed", str(seed), "-runs", str(runs),
+                          "-spe", str(p["spe"]), "-epp", str(p["epp"]), "-epochs", str(p["epochs"]), "-nv", str(p["nv"])],
+                    timeout=3000)
+    r2 = json.load(open(outr))
+    for attempt in range(2):
+        acc = vlib.tlc_validate_trace("SchedulerTrace", "SchedTrace_%s.cfg" % role, tr,
+                                      name="%s-tv-%s%d" % (PROP, role, attempt), timeout=2400)
+        if not _killed(acc[3]):
+            break
+    return tr, r2, acc
 
 
 def run(tier, seed):
     t0 = time.time()
     T = _tier(tier)
+    os.environ["_JAVA_OPTIONS"] = T["java"]   # every JVM of this check: small heap, few GC threads (shared machine)
     verdict = vlib.Verdict(PROP)
     cov = {"configs": [], "attack_traces": 0, "divergences": 0, "attack_configs_without_counterexample": []}
     drv = vlib.go_build("scheduler")
     wd = os.path.join(vlib.WORK, PROP)
     os.makedirs(wd, exist_ok=True)
     rng = random.Random(seed)
-
-    # 1. exhaustive model checking of the faithful spec, every role
+    num, depth = T["sim"]
     cfgs = [pat % role for pat in T["mc"] for role in ROLES]
-    results = _pmap(lambda c: _tlc("MCScheduler", c, workers=T["workers"], timeout=T["stop_after"] + 600,
-                                   stop_after=T["stop_after"]), cfgs, T["par"])
-    states = transitions = 0
-    exhaustive = True
-    for c, r in zip(cfgs, results):
-        if not vlib.expect_tlc_ok(r, c):
-            raise vlib.MachineryError("faithful Scheduler spec violates %s in %s (model error, not a verdict):\n%s" %
-                                      (r.violation, c, json.dumps(vlib.tlaval.plain([s.get("act") for s in r.trace]))))
-        cov["configs"].append({"cfg": c, "distinct": r.distinct, "generated": r.generated, "depth": r.depth,
-                               "exhaustive": r.finished, "wall_s": round(r.wall, 1)})
-        states += r.distinct
-        transitions += r.generated
-        exhaustive = exhaustive and r.finished
-        log("[C16] TLC %s: %d distinct / %d generated, finished=%s, %.1fs" % (c, r.distinct, r.generated, r.finished, r.wall))
-    rs = _tlc("MCScheduler", "Sched_sanity.cfg", workers=1, timeout=300)
-    if rs.violation != "NeverDispatch":
-        raise vlib.MachineryError("sanity: the spec never dispatches a duty (checks would be vacuous): %s" % (rs.error or rs.out[-500:]))
 
-    # 2. behaviours to replay: graph covers, simulations, attack traces
+    # all TLC work of the tier goes through one pool (at most par JVMs at a time), longest jobs first
+    ex = concurrent.futures.ThreadPoolExecutor(max_workers=T["par"])
+    f_mc = [ex.submit(_tlc, "MCScheduler", c, workers=T["workers"], timeout=T["stop_after"] + 600, stop_after=T["stop_after"])
+            for c in cfgs]
+    f_own = [ex.submit(_own, drv, wd, role, seed, T["own_runs"]) for role in ROLES]
+    f_sim = [ex.submit(_sim, role, num, depth, seed) for role in ROLES]
+    f_cover = [ex.submit(_cover, role) for role in ROLES]
+    f_attack = [ex.submit(_attack, cfg, desc) for cfg, desc in ATTACKS]
+    f_sanity = ex.submit(_sanity)
+
+    # 1. behaviours to replay on the real handlers: graph covers, simulations, attack traces
     behs = []
-
-    def cover(role):
-        return vlib.tlc_dump_graph("MCScheduler", "Sched_%s_cover.cfg" % role, name="%s-cover-%s" % (PROP, role), timeout=1500, workers=2)
-    for role, (rg, nodes, edges, inits) in zip(ROLES, _pmap(cover, ROLES, 3)):
-        if _killed(rg) or not nodes:
-            rg, nodes, edges, inits = cover(role)
-        if not vlib.expect_tlc_ok(rg, "cover " + role):
-            raise vlib.MachineryError("cover config of %s violates %s" % (role, rg.violation))
+    transitions = 0
+    for role, f in zip(ROLES, f_cover):
+        nodes, edges, inits, gen = f.result()
         bs, gstat = vlib.graph_behaviours(nodes, edges, inits, seed, max_extra=T["extra_edges"], state_vars=STATE_VARS,
                                           kind="cover-" + role)
         leaves = [b for b in bs if "-leaf-" in b["id"]]
         extra = [b for b in bs if "-leaf-" not in b["id"]]
         rng.shuffle(leaves)
         gstat["leaves_replayed"] = min(len(leaves), T["leaves"])
+        gstat["graph_from_cache"] = gen == 0
         cov["cover_graph_" + role] = gstat
         behs += leaves[:T["leaves"]] + extra
-        transitions += rg.generated
-
-    num, depth = T["sim"]
-
-    def sim(role):
-        return vlib.tlc_simulate("MCScheduler", "Sched_%s_sim.cfg" % role, num, depth, seed, name="%s-sim-%s" % (PROP, role),
-                                 keep_vars=["act"] + STATE_VARS, timeout=1500)
+        transitions += gen
     nsim = 0
-    for role, (rsim, sb) in zip(ROLES, _pmap(sim, ROLES, 3)):
-        if not sb and not rsim.violation and not rsim.error:
-            rsim, sb = sim(role)
-        if rsim.violation or rsim.error:
-            raise vlib.MachineryError("simulation config of %s: %s %s" % (role, rsim.violation, rsim.error))
+    for role, f in zip(ROLES, f_sim):
+        rsim, sb = f.result()
         for k, b in enumerate(sb):
             behs.append(vlib.trace_behaviour(b, "sim-%s-%d" % (role, k), "sim", state_vars=STATE_VARS))
         nsim += len(sb)
         transitions += rsim.generated
     cov["sim_behaviours"] = nsim
-
-    def attack(item):
-        return _tlc("MCScheduler", item[0], workers=2, timeout=900)
     attack_behs = []
-    for (cfg, desc), ra in zip(ATTACKS, _pmap(attack, ATTACKS, 4)):
-        if ra.error:
-            raise vlib.MachineryError("attack config %s: %s" % (cfg, ra.error))
-        if not ra.violation:
+    for (cfg, desc), f in zip(ATTACKS, f_attack):
+        beh, gen = f.result()
+        transitions += gen
+        if beh is None:
             cov["attack_configs_without_counterexample"].append(cfg)
             log("[C16] attack config %s produced no counterexample (not counted)" % cfg)
-            continue
-        attack_behs.append(vlib.trace_behaviour(ra.trace, "attack-" + cfg.replace("Sched_attack_", "").replace(".cfg", ""),
-                                                "attack:%s (spec invariant %s)" % (desc, ra.violation), state_vars=STATE_VARS))
+        else:
+            attack_behs.append(beh)
     cov["attack_traces"] = len(attack_behs)
     if len(attack_behs) < len(ATTACKS) - 2:
         raise vlib.MachineryError("only %d of %d attack configs produced a counterexample" % (len(attack_behs), len(ATTACKS)))
@@ -175,23 +255,11 @@ def run(tier, seed):
         (res["behaviours"], res["steps"], res["counters"].get("violations", 0), res["counters"].get("divergences", 0),
          res["counters"].get("attack_steps_refused", 0)))
 
-    # 3. the driver's own schedules on the real handlers, validated by TLC against the spec
+    # 2. the driver's own schedules on the real handlers, validated by TLC against the spec
     own_behs = own_steps = own_nontrivial = accepted_traces = 0
     samples = []
-
-    def own(role):
-        tr = os.path.join(wd, "trace_%s.ndjson" % role)
-        outr = os.path.join(wd, "own_%s.json" % role)
-        p = OWN[role]
-        args = ["-mode", "own", "-role", role, "-trace", tr, "-out", outr, "-seed", str(seed), "-runs", str(T["own_runs"]),
-                "-spe", str(p["spe"]), "-epp", str(p["epp"]), "-epochs", str(p["epochs"]), "-nv", str(p["nv"])]
-        vlib.run_driver(drv, args, timeout=3000)
-        r2 = json.load(open(outr))
-        acc = vlib.tlc_validate_trace("SchedulerTrace", "SchedTrace_%s.cfg" % role, tr, name="%s-tv-%s" % (PROP, role), timeout=2400)
-        if _killed(acc[3]):
-            acc = vlib.tlc_validate_trace("SchedulerTrace", "SchedTrace_%s.cfg" % role, tr, name="%s-tv2-%s" % (PROP, role), timeout=2400)
-        return role, tr, args, r2, acc
-    for role, tr, args, r2, (accepted, consumed, nlines, rt) in _pmap(own, ROLES, 3):
+    for role, f in zip(ROLES, f_own):
+        tr, r2, (accepted, consumed, nlines, rt) = f.result()
         p = OWN[role]
         _collect(r2, verdict, "own:role=%s,seed=%d,runs=%d,spe=%d,epp=%d,epochs=%d,nv=%d" %
                  (role, seed, T["own_runs"], p["spe"], p["epp"], p["epochs"], p["nv"]))
@@ -213,6 +281,23 @@ def run(tier, seed):
         samples.append(open(tr).read().split("\n")[0:10])
     cov["own_behaviours"] = own_behs
     cov["binding_selftest"] = _selftest(os.path.join(wd, "trace_att.ndjson"), wd)
+
+    # 3. exhaustive model checking of the faithful spec, every role
+    f_sanity.result()
+    states = 0
+    exhaustive = True
+    for c, f in zip(cfgs, f_mc):
+        r = f.result()
+        if not vlib.expect_tlc_ok(r, c):
+            raise vlib.MachineryError("faithful Scheduler spec violates %s in %s (model error, not a verdict):\n%s" %
+                                      (r.violation, c, json.dumps(vlib.tlaval.plain([s.get("act") for s in r.trace]))))
+        cov["configs"].append({"cfg": c, "distinct": r.distinct, "generated": r.generated, "depth": r.depth,
+                               "exhaustive": r.finished, "wall_s": round(r.wall, 1)})
+        states += r.distinct
+        transitions += r.generated
+        exhaustive = exhaustive and r.finished
+        log("[C16] TLC %s: %d distinct / %d generated, finished=%s, %.1fs" % (c, r.distinct, r.generated, r.finished, r.wall))
+    ex.shutdown()
 
     rc = verdict.report()
     if cov["divergences"] and rc == 0:
